@@ -46,9 +46,15 @@ fn start(small: usize) -> Server {
     let (addr, _stopped) = exec.block_on(b.permit(permit.new_sub()).spawn(handler)).unwrap();
     Server { addr, _permit: permit, _exec: exec, _dir: dir, log }
 }
-fn exchange(s: &Server, send: &[u8]) -> Vec<u8> {
+fn exchange(s: &Server, send: &[u8]) -> Vec<u8> { exchange_cuts(s, send, &[]) }
+/// the bytes delivered in pieces: a pause after each offset in `cuts` (ascending), long enough for the server to read what came
+fn exchange_cuts(s: &Server, send: &[u8], cuts: &[usize]) -> Vec<u8> {
     let mut c = TcpStream::connect_timeout(&s.addr, Duration::from_secs(2)).unwrap();
-    c.set_read_timeout(Some(Duration::from_secs(10))).unwrap();
+    c.set_read_timeout(Some(Duration::from_secs(4))).unwrap();
+    let _ = c.set_nodelay(true);
+    let mut at = 0usize;
+    for k in cuts { let k = (*k).min(send.len()); if k > at { let _ = c.write_all(&send[at..k]); let _ = c.flush(); std::thread::sleep(Duration::from_millis(if cuts.len() > 8 { 2 } else { 12 })); at = k; } }
+    let send = &send[at..];
     let _ = c.write_all(send);
     let _ = c.shutdown(Shutdown::Write);
     let mut out = Vec::new();
@@ -61,8 +67,11 @@ fn statuses(out: &[u8]) -> Vec<u16> {
 }
 /// one scripted connection: a list of (kind, code, body length); kinds r g d p, and e = r with `Expect: 100-continue`
 /// (the client sends the body without waiting, as RFC 7231 5.1.1 allows)
-fn scenario(s: &Server, small: usize, reqs: &[(char, u16, usize)]) -> Option<String> {
-    let desc = format!("conn S={small} reqs={}{}", reqs.iter().map(|(k, c, l)| format!("{k}{c}:{l}")).collect::<Vec<_>>().join(","), if nocache() { " nocache=1" } else { "" });
+fn scenario(s: &Server, small: usize, reqs: &[(char, u16, usize)]) -> Option<String> { scenario_cuts(s, small, reqs, None) }
+/// `cuts`: None = one write; Some(k) = a pause after byte k; Some(usize::MAX) = byte at a time
+fn scenario_cuts(s: &Server, small: usize, reqs: &[(char, u16, usize)], cut: Option<usize>) -> Option<String> {
+    let desc = format!("conn S={small} reqs={}{}{}", reqs.iter().map(|(k, c, l)| format!("{k}{c}:{l}")).collect::<Vec<_>>().join(","), if nocache() { " nocache=1" } else { "" },
+        match cut { None => String::new(), Some(usize::MAX) => " cut=each".to_string(), Some(k) => format!(" cut={k}") });
     let mut msg = Vec::new();
     for (i, (k, code, l)) in reqs.iter().enumerate() {
         let path = path_of(*k, *code);
@@ -71,7 +80,8 @@ fn scenario(s: &Server, small: usize, reqs: &[(char, u16, usize)]) -> Option<Str
         else { msg.extend_from_slice(format!("GET {path} HTTP/1.1\r\n\r\n").as_bytes()); }
     }
     s.log.lock().unwrap().clear();
-    let out = exchange(s, &msg);
+    let cuts: Vec<usize> = match cut { None => vec![], Some(usize::MAX) => (1..msg.len()).collect(), Some(k) => vec![k] };
+    let out = exchange_cuts(s, &msg, &cuts);
     let got: Vec<u16> = statuses(&out).into_iter().filter(|c| *c != 100).collect();
     std::thread::sleep(Duration::from_millis(20));
     let runs = s.log.lock().unwrap().clone();
@@ -176,8 +186,9 @@ fn main() {
         }
         let (small, reqs) = parse(&args[2..].join(" "));
         if w.contains(" nocache=1") { NOCACHE.store(true, std::sync::atomic::Ordering::SeqCst); }
+        let cut = w.split(" cut=").nth(1).map(|x| { let x = x.split(' ').next().unwrap(); if x == "each" { usize::MAX } else { x.parse().unwrap() } });
         let s = start(small);
-        match scenario(&s, small, &reqs) { Some(m) => { println!("WITNESS {m}"); std::process::exit(1) } None => { println!("OK witness no longer fails"); std::process::exit(0) } }
+        match scenario_cuts(&s, small, &reqs, cut) { Some(m) => { println!("WITNESS {m}"); std::process::exit(1) } None => { println!("OK witness no longer fails"); std::process::exit(0) } }
     }
     let mut n = 0u64; let mut found = Vec::new();
     for small in [0usize, 10, 100] {
@@ -204,6 +215,17 @@ fn main() {
             n += 1; if let Some(w) = scenario(&s, small, &[(k, c, l)]) { if found.len() < 6 { found.push(w) } }
         }}
         NOCACHE.store(false, std::sync::atomic::Ordering::SeqCst);
+    }
+    {
+        // delivery schedules: the same connection with a pause after every single offset of the bytes sent (so that every
+        // request head -- and its final CRLFCRLF -- is split at every position), and byte at a time
+        let small = 10usize;
+        let s = start(small);
+        let reqs = [('r', 200u16, 0usize), ('r', 200, 5), ('g', 200, 20), ('r', 404, 0)];
+        let total: usize = 16 + 2 + 2 + 40 + 5 + 2 + 2 + 41 + 20 + 2 + 2 + 22;   // an upper bound of the message length
+        for k in 1..total { n += 1; if let Some(w) = scenario_cuts(&s, small, &reqs, Some(k)) { if found.len() < 6 { found.push(w) } } }
+        n += 1; if let Some(w) = scenario_cuts(&s, small, &reqs, Some(usize::MAX)) { if found.len() < 6 { found.push(w) } }
+        n += 1; if let Some(w) = scenario_cuts(&s, small, &[('e', 200, 30), ('r', 200, 0)], Some(usize::MAX)) { if found.len() < 6 { found.push(w) } }
     }
     {
         let s = start(100);
